@@ -470,6 +470,9 @@ def _run_local(case):
 
     def do(w):
         op = w[0]
+        if op == "x_selftest_crash":          # never generated: lets the crash-is-a-verdict path be exercised by hand
+            import signal
+            os.kill(os.getpid(), signal.SIGSEGV)
         if op == "enc":
             a = A(w[1])
             return "ok " + _ints(a.alph.encode_multiple(symform(a, _ptoks(w[2]), w[3] if len(w) > 3 else "")))
@@ -564,7 +567,7 @@ def _run_local(case):
                 idx = _pints(w[2])
                 return "ok " + _seq_tokens((s[np.array(idx, dtype=np.int64)] if w[3] == "a" else s[list(idx)], a))
             if op == "s_mask":
-                return "ok " + _seq_tokens((s[np.array([c == "1" for c in w[2]], dtype=bool)], a))
+                return "ok " + _seq_tokens((s[np.array([c == "1" for c in (w[2] if w[2] != "_" else "")], dtype=bool)], a))
             if op == "s_slicestep":
                 lo, hi, st = (None if x == "-" else int(x) for x in w[2:5])
                 return "ok " + _seq_tokens((s[lo:hi:st], a))
@@ -841,7 +844,7 @@ def _case_alphabet(rng):
             dt = rng.choice(["u8", "u8", "i64", "i64", "u16", "i16", "i32", "u32", "u64", "i8", "list"])
             if spec.startswith("G:") and rng.random() < 0.5:
                 dt = "list"
-            ops.append(f"dec {spec} {dt} {_ints(_rand_codes(rng, len(al), n, dt, rng.choice([0, 0, 0.3])))}")
+            ops.append(f"dec {spec} {_spell(rng, dt)} {_ints(_rand_codes(rng, len(al), n, dt, rng.choice([0, 0, 0.3])))}")
         else:
             ops.append(f"dec1 {spec} {_rand_codes(rng, len(al), 1, 'i64', 0.4)[0]}")
     return {"kind": "alphabet", "ops": ops}
@@ -1158,11 +1161,195 @@ def _case_setcode_full(rng):
         m = rng.choice([1, 2, 4])
         vals = [rng.choice(pool) if rng.random() < 0.5 else rng.randrange(min(n, hi + 1)) for _ in range(m)]
         if rng.random() < 0.65:
-            ops += [f"s_setcode 0 {dt} {_ints(vals)}", "s_str 0", "s_code 0", "s_valid 0"]
+            ops += [f"s_setcode 0 {_spell(rng, dt)} {_ints(vals)}", "s_str 0", "s_code 0", "s_valid 0"]
         else:
-            ops += [f"s_setarr 0 0 {m} {dt} {_ints(vals)}", "s_str 0"]
+            ops += [f"s_setarr 0 0 {m} {_spell(rng, dt)} {_ints(vals)}", "s_str 0"]
             ops += ["s_setcode 0 u64 0,1,2,3"]          # back to a known valid state of length 4
     return {"kind": "sequence-setcode-full", "ops": ops}
+
+
+def _spell(rng, dt, forms="srb"):
+    """the same array in another spelling: strided view / read-only / byte-swapped"""
+    if dt in ("list", "tuple") or rng.random() < 0.5:
+        return dt
+    return dt + "@" + rng.choice(forms)
+
+
+def _case_spellings(rng):
+    """the same symbols / codes in other spellings (str, bytes, list, tuple, ndarray of U1/S1/object, numpy scalars, strided /
+    read-only / byte-swapped arrays, list / tuple), on ONE alphabet / mapper object that is reused for all ops"""
+    spec = _alph_spec(rng)
+    al = _spec_syms(spec)
+    letter = spec.startswith("L:")
+    ops = []
+    for _ in range(rng.randint(4, 8)):
+        r = rng.random()
+        n = rng.choice([0, 1, 2, 4, 7])
+        if r < 0.35:
+            syms = _rand_syms(rng, spec, n, rng.choice([0, 0, 0.2]))
+            if letter and any(int(t) >= 128 for t in syms):
+                form = "b"
+            else:
+                form = rng.choice(["b", "s", "l", "t", "aU", "aS", "aO", "n", "lb"]) if letter else rng.choice(["l", "t", "aO", "g"])
+            ops.append(f"enc {spec} {_toks(syms)} {form}")
+        elif r < 0.7:
+            dt = rng.choice(["u8", "i64", "u16", "i16", "i32", "u32", "u64", "i8", "list", "tuple"])
+            ops.append(f"dec {spec} {_spell(rng, dt)} {_ints(_rand_codes(rng, len(al), n, dt if dt not in ('tuple',) else 'list', rng.choice([0, 0, 0.3])))}")
+        elif r < 0.85:
+            c = _rand_codes(rng, len(al), 1, "i64", 0.3)[0]
+            dts = [d for d in ("i64", "i32", "i8", "ip", "u8", "u64", "i16", "u16") if d == "ip" or DT_RANGE[d][0] <= c <= DT_RANGE[d][1]]
+            ops.append(f"dec1 {spec} {c}:{rng.choice(dts)}")
+        else:
+            ops.append(f"ainfo {spec} {rng.choice(al) if rng.random() < 0.6 else _rand_syms(rng, spec, 1, 1.0)[0]}")
+    # a mapper object reused with code arrays of every unsigned width and spelling, and with scalars
+    tgt = al + ([t for t in ([str(p) for p in PRINTABLE] if letter else GEN_TOKENS) if t not in al][:2])
+    src = rng.sample(tgt, rng.randint(1, len(tgt)))
+    mk = (lambda xs: "L:" + _toks(xs)) if letter else (lambda xs: "G:" + _toks(xs))
+    for _ in range(rng.randint(1, 3)):
+        codes = [rng.randrange(len(src)) for _ in range(rng.choice([0, 1, 3, 6]))]
+        dt = rng.choice(["u8", "u16", "u32", "u64", "i64", "i32", "list", "tuple", "scalar"])
+        ops.append(f"map {mk(src)} {mk(tgt)} {_ints(codes)} {_spell(rng, dt, 's') if dt != 'scalar' else dt}")
+    if rng.random() < 0.5:
+        others = [mk(al[:rng.randint(1, len(al))]), mk(tgt), mk(al)]
+        if rng.random() < 0.3:
+            others.append(mk(list(reversed(tgt))))
+        rng.shuffle(others)
+        ops.append("common " + " ".join(others[:rng.randint(1, len(others))]))
+    return {"kind": "spellings", "ops": ops}
+
+
+def _case_seq_api(rng):
+    """less-used Sequence entry points on reused objects; every refused call is followed by a read of the object"""
+    mode = rng.choice(["nuc", "prot", "gen", "gen"])
+    ops = []
+    if mode == "nuc":
+        txt = [rng.choice("ACGTacgtNRY" if rng.random() < 0.5 else "ACGT") for _ in range(rng.choice([0, 1, 3, 6]))]
+        ops.append(f"s_nuc2 {rng.choice('TF')} {_ints(ord(c) for c in txt)}")
+        ops.append(f"s_nuc2 T {_ints(ord(rng.choice('ACGTN')) for _ in range(4))}")
+        symtoks, bad = [str(ord(c)) for c in "ACGT"], "33"
+    elif mode == "prot":
+        items = []
+        for _ in range(rng.choice([1, 3, 5])):
+            r = rng.random()
+            if r < 0.45:
+                name = rng.choice(sorted(THREE_TO_ONE))
+                name = rng.choice([name, name.lower(), name.capitalize()])
+            elif r < 0.85:
+                name = rng.choice(AA + "acd")
+            else:
+                name = rng.choice(["XYZ", "AL", "ALAA", "", "J"])
+            items.append(".".join(str(ord(c)) for c in name) or ".")
+        ops.append("s_prot3 " + _toks(items))
+        ops.append(f"s_prot {_ints(ord(rng.choice('ACD*W*')) for _ in range(5))}")
+        symtoks, bad = [str(ord(c)) for c in "ACDW*"], "74"
+    else:
+        spec = _alph_spec(rng, small=True)
+        al = _spec_syms(spec)
+        ops.append(f"s_new {spec} {_toks(_rand_syms(rng, spec, rng.choice([0, 2, 5])))}")
+        ext = spec[:2] + _toks(al + [t for t in ([str(p) for p in PRINTABLE] if spec.startswith('L:') else GEN_TOKENS) if t not in al][:2])
+        ops.append(f"s_new {ext} {_toks(_rand_syms(rng, ext, 3))}")
+        symtoks, bad = al, ("33" if spec.startswith("L:") and "33" not in al else "sZZ" if not spec.startswith("L:") else "126")
+    # the first op may have been refused: registers exist only if it succeeded -> ERR:noreg on both sides otherwise
+    for _ in range(rng.randint(4, 8)):
+        i = rng.choice([0, 0, 1])
+        r = rng.random()
+        if r < 0.2:
+            ops.append(f"s_info {i}")
+        elif r < 0.4:
+            syms = [rng.choice(symtoks) for _ in range(rng.choice([0, 1, 4]))]
+            if rng.random() < 0.3:
+                syms.append(bad)
+            ops += [f"s_setsymbols {i} {_toks(syms)}", f"s_str {i}", f"s_code {i}"]
+        elif r < 0.5:
+            ops += [f"s_set {i} {rng.randint(-3, 3)} {bad if rng.random() < 0.5 else rng.choice(symtoks)}", f"s_str {i}", f"s_code {i}"]
+        elif r < 0.6:
+            dt = rng.choice(["i64", "i8", "u16", "u8"])
+            ops += [f"s_setcode {i} {_spell(rng, dt)} {_ints(_rand_codes(rng, len(symtoks), rng.choice([1, 3]), dt, 0.4))}", f"s_str {i}", f"s_valid {i}"]
+        elif r < 0.7:
+            ops.append(f"s_pos {i}")
+        elif r < 0.8 and mode == "gen":
+            a, b = rng.choice([(0, 1), (1, 0), (0, 0)])
+            ops += [f"s_astype {a} {b}", f"s_str {b}", f"s_str {a}", f"s_eq {a} {b}"]
+        elif r < 0.9 and mode == "prot":
+            ops += [f"s_rmstops {i}", f"s_str {i}"]
+        else:
+            ops += [f"s_copy {i}", f"s_info {i}"]
+    return {"kind": "sequence-api", "ops": ops}
+
+
+def _case_index_extra(rng):
+    """fancy / boolean / stepped indexing — compared with plain Python list semantics only (not modelled)"""
+    n = rng.choice([0, 1, 3, 6, 9])
+    txt = [rng.choice("ACGTN") for _ in range(n)]
+    ops = ["s_nuc " + _ints(ord(c) for c in txt)]
+    for _ in range(6):
+        r = rng.random()
+        if r < 0.4:
+            a, b = (rng.choice(["-", str(rng.randint(-n - 2, n + 2))]) for _ in range(2))
+            ops.append(f"s_slicestep 0 {a} {b} {rng.choice([-1, -1, -2, 2, 3, -3, 1, 0])}")
+        elif r < 0.7:
+            ks = [rng.randint(-n, n - 1) if n else 0 for _ in range(rng.choice([0, 1, 3, 5]))]
+            if rng.random() < 0.15:
+                ks.append(n + rng.randint(0, 2))
+            ops.append(f"s_fancy 0 {_ints(ks)} {rng.choice('al')}")
+        else:
+            m = n if rng.random() < 0.85 else n + 1
+            ops.append("s_mask 0 " + ("".join(rng.choice("01") for _ in range(m)) or "_"))
+    return {"kind": "sequence-index-extra", "check_ops": ops}
+
+
+def _case_kmer_api(rng):
+    """one KmerAlphabet object reused for info / 2-D fuse / array split / create_kmers of several sizes"""
+    n = rng.choice([2, 3, 4, 5, 24])
+    k = rng.randint(2, 4)
+    ops = []
+    for _ in range(rng.randint(4, 7)):
+        r = rng.random()
+        if r < 0.2:
+            sp = "-" if rng.random() < 0.5 else _ints(rng.sample(range(k + 3), k))
+            ops.append(f"k_info {n} {k} {sp} {rng.choice([0, 1, k, k + 5, 40])}")
+        elif r < 0.45:
+            rows = [[rng.randrange(n) for _ in range(k)] for _ in range(rng.randint(1, 4))]
+            if rng.random() < 0.15:
+                rows[-1][rng.randrange(k)] = n + 2
+            ops.append(f"k_fuse2 {n} {k} {rng.choice(['i64', 'u8', 'i32'])} " + ";".join(".".join(str(c) for c in r) for r in rows))
+        elif r < 0.65:
+            cs = [rng.randrange(n ** k) for _ in range(rng.randint(1, 4))]
+            if rng.random() < 0.2:
+                cs.append(rng.choice([n ** k, -1]))
+            ops.append(f"k_splitv {n} {k} {_ints(cs)}")
+        elif r < 0.8:
+            c = rng.randrange(n ** k)
+            ops.append(f"k_split {n} {k} {c}:{rng.choice(['i64', 'i32', 'u64', 'ip'])}")
+        else:
+            L = rng.choice([k, k + 1, k + 6, 2 * k + 9])
+            dt = rng.choice(["u8", "u16", "u32", "u64"])
+            ops.append(f"k_kmers {n} {k} - {_spell(rng, dt, 's')} {_ints(rng.randrange(n) for _ in range(L))}")      # Cython memoryviews refuse read-only / byte-swapped buffers
+            ops.append(f"k_fuse {n} {k} {_spell(rng, rng.choice(['i64', 'u8', 'i32']))} {_ints(rng.randrange(n) for _ in range(k))}")
+    return {"kind": "kmer-api", "ops": ops}
+
+
+def _case_codon_api(rng):
+    """less-used CodonTable entry points and the implicit default table, interleaved with derived tables"""
+    ops = [rng.choice(["c_default", f"c_load {rng.choice(TABLE_IDS)}", f"c_load {rng.choice(TABLE_IDS)}"]), "c_dict"]
+    for _ in range(rng.randint(3, 6)):
+        r = rng.random()
+        if r < 0.25:
+            ops.append(f"c_codons {rng.choice(AA + 'Ja')}")
+        elif r < 0.45:
+            dna = _rand_dna(rng, rng.choice([0, 6, 12, 21]), ["ATG"])
+            ops.append(f"c_tr0 {rng.choice([0, 1])} {rng.choice([0, 1])} {dna or '_'}")
+        elif r < 0.7:
+            if rng.random() < 0.5:
+                ops.append("c_derive_map " + _toks(f"{rng.choice(RADIX_CODONS)}={rng.choice(AA)}" for _ in range(rng.randint(1, 3))))
+            else:
+                ops.append("c_derive_starts " + _toks(rng.choice(RADIX_CODONS) for _ in range(rng.randint(1, 3))))
+            ops += ["c_eq2", "c_dict"]
+        elif r < 0.8:
+            ops.append("c_names")
+        else:
+            ops += ["c_dict", f"c_tr 0 {rng.choice([0, 1])} {_rand_dna(rng, 15, ['ATG', 'TTG'])}"]
+    return {"kind": "codon-api", "ops": ops}
 
 
 def _case_eq(rng):
@@ -1370,7 +1557,7 @@ def _case_codon(rng, table_id=None):
 def cases(rng, tier):
     scale = 1 if tier == "quick" else 12
     plan = [(_case_alphabet, 110), (_case_bytes, 16), (_case_newalph, 12), (_case_mapper, 50), (_case_mapper_big, 12),
-            (_case_sequence, 130), (_case_add, 30), (_case_eq, 40), (_case_pickle, 40), (_case_setcode_full, 30), (_case_kmer, 110), (_case_kmer_illegal, 20), (_case_codon, 110), (_case_derive, 50)]
+            (_case_sequence, 130), (_case_add, 30), (_case_eq, 40), (_case_pickle, 40), (_case_setcode_full, 30), (_case_spellings, 50), (_case_seq_api, 50), (_case_index_extra, 15), (_case_kmer_api, 30), (_case_codon_api, 30), (_case_kmer, 110), (_case_kmer_illegal, 20), (_case_codon, 110), (_case_derive, 50)]
     for fn, cnt in plan:
         for _ in range(cnt * scale):
             yield fn(rng)
@@ -1555,6 +1742,9 @@ def iupac_complement(sym):
     return hits[0]
 
 
+THREE_TO_ONE = {"ALA": "A", "CYS": "C", "ASP": "D", "GLU": "E", "PHE": "F", "GLY": "G", "HIS": "H", "ILE": "I", "LYS": "K", "LEU": "L",
+                "MET": "M", "ASN": "N", "PRO": "P", "GLN": "Q", "ARG": "R", "SER": "S", "THR": "T", "VAL": "V", "TRP": "W", "TYR": "Y",
+                "ASX": "B", "GLX": "Z", "UNK": "X", " * ": "*", "SEC": "C", "MSE": "M"}
 _TABLE_CACHE = {}
 
 
@@ -1661,7 +1851,7 @@ def reference(ops):
                 codes = _pints(w[3])
                 e = ("eq", "ok " + _toks(al[c] for c in codes)) if all(0 <= c < len(al) for c in codes) else ("err", {"AlphabetError"})
             else:
-                c = int(w[2])
+                c = int(w[2].split(":")[0])
                 e = ("eq", "ok " + al[c]) if 0 <= c < len(al) else ("err", {"AlphabetError"})
         elif op == "newalph":
             letter, al = alph_of(w[1])
@@ -1671,6 +1861,51 @@ def reference(ops):
                 e = ("eq", "ok " + str(len(al)))
             else:
                 e = ("anyerr",)
+        elif op == "common":
+            cur = None
+            bad = False
+            for spec in w[1:]:
+                al = alph_of(spec)[1]
+                if cur is None:
+                    cur = al
+                elif cur[:len(al)] != al:
+                    if al[:len(cur)] == cur:
+                        cur = al
+                    else:
+                        bad = True
+                        break
+            e = ("eq", "ok none" if bad or cur is None else "ok " + _toks(cur))
+        elif op == "ainfo":
+            letter, al = alph_of(w[1])
+            isl = letter or all(len(t) == 2 and t[0] in "sb" for t in al)
+            e = ("eq", f"ok {len(al)} {'true' if w[2] in al else 'false'} {'true' if isl else 'false'} {_toks(al)}")
+        elif op in ("s_nuc2", "s_prot3"):
+            if op == "s_nuc2":
+                txt = "".join(chr(int(t)) for t in _ptoks(w[2])).upper()
+                al = NUC_AMB if w[1] == "T" else NUC_UNAMB
+                okk = all(c in al for c in txt)
+                kind = 1
+            else:
+                al = AA
+                kind = 2
+                txt = []
+                okk = True
+                for t in _ptoks(w[1]):
+                    item = "" if t == "." else "".join(chr(int(x)) for x in t.split("."))
+                    if len(item) == 3:
+                        one = THREE_TO_ONE.get(item.upper())
+                        okk = okk and one is not None
+                        txt.append(one or "?")
+                    else:
+                        okk = okk and len(item) == 1 and item.upper() in AA
+                        txt.append(item.upper())
+                txt = "".join(txt) if okk else ""
+            if okk:
+                toks = [str(ord(c)) for c in txt]
+                regs.append({"kind": kind, "alph": [str(ord(c)) for c in al], "syms": toks})
+                e = ("eq", "ok " + (f"{len(al)} " if op == "s_nuc2" else "") + _toks(toks))
+            else:
+                e = ("err", {"AlphabetError"})
         elif op == "extends":
             _, a = alph_of(w[1])
             _, b = alph_of(w[2])
@@ -1712,8 +1947,61 @@ def reference(ops):
                 exp.append(("eq", "ERR:noreg"))
                 continue
             r = regs[idx[0]]
+            if op == "s_astype":
+                j = int(w[2])
+                if j >= len(regs):
+                    exp.append(("eq", "ERR:noreg"))
+                    continue
+                o = regs[j]
+                if o["alph"][:len(r["alph"])] == r["alph"]:
+                    o["syms"] = None if r["syms"] is None else list(r["syms"])
+                    o["maybe_unchanged"] = r["syms"] is None
+                    exp.append(None if r["syms"] is None else ("eq", "ok " + _toks(o["syms"])))
+                else:
+                    exp.append(("err", {"AlphabetError"}))
+                continue
             poisoned = r["syms"] is None or (len(idx) > 1 and regs[idx[1]]["syms"] is None)
-            if op == "s_setcode":
+            if op in ("s_info", "s_pos", "s_fancy", "s_mask", "s_slicestep", "s_setsymbols", "s_rmstops", "s_revv") and poisoned:
+                if op in ("s_rmstops", "s_revv"):
+                    regs.append({"kind": r["kind"], "alph": r["alph"], "syms": None, "maybe_unchanged": True})
+                if op == "s_setsymbols" and all(t in r["alph"] for t in _ptoks(w[2])):
+                    r["syms"] = list(_ptoks(w[2]))
+                    r["maybe_unchanged"] = False
+                    exp.append(("eq", "ok " + _toks(r["syms"])))
+                else:
+                    exp.append(None)
+                continue
+            if op == "s_info":
+                counts = [r["syms"].count(t) for t in r["alph"]]
+                e = ("eq", f"ok {len(r['syms'])} {_toks(r['syms'])} {_ints(counts)}")
+            elif op == "s_pos":
+                e = ("eq", f"ok {len(r['syms'])} {_toks(r['syms'])}") if r["syms"] else None
+            elif op == "s_setsymbols":
+                syms = _ptoks(w[2])
+                if all(t in r["alph"] for t in syms):
+                    r["syms"] = list(syms)
+                    e = ("eq", "ok " + _toks(syms))
+                else:
+                    e = ("err", {"AlphabetError"})
+            elif op == "s_rmstops":
+                new_syms = [t for t in r["syms"] if t != "42"]
+                regs.append({"kind": r["kind"], "alph": r["alph"], "syms": new_syms})
+                e = ("eq", "ok " + _toks(new_syms))
+            elif op == "s_revv":
+                new_syms = r["syms"][::-1]
+                regs.append({"kind": r["kind"], "alph": r["alph"], "syms": new_syms})
+                e = ("eq", "ok " + _toks(new_syms))
+            elif op == "s_fancy":
+                ks = _pints(w[2])
+                n = len(r["syms"])
+                e = ("eq", "ok " + _toks(r["syms"][k] for k in ks)) if all(-n <= k < n for k in ks) else ("err", {"IndexError"})
+            elif op == "s_mask":
+                bits = w[2] if w[2] != "_" else ""
+                e = ("eq", "ok " + _toks(t for t, b in zip(r["syms"], bits) if b == "1")) if len(bits) == len(r["syms"]) else ("err", {"IndexError"})
+            elif op == "s_slicestep":
+                lo, hi, st = (None if x == "-" else int(x) for x in w[2:5])
+                e = ("err", {"ValueError"}) if st == 0 else ("eq", "ok " + _toks(r["syms"][lo:hi:st]))
+            elif op == "s_setcode":
                 codes = _pints(w[3])
                 if all(0 <= c < len(r["alph"]) for c in codes):
                     r["syms"] = [r["alph"][c] for c in codes]
@@ -1825,6 +2113,42 @@ def reference(ops):
                 new = [str(ord(iupac_complement(chr(int(t))))) for t in r["syms"]]
                 regs.append({"kind": r["kind"], "alph": r["alph"], "syms": new})
                 e = ("eq", "ok " + _toks(new))
+        elif op == "k_info":
+            n, k, L = int(w[1]), int(w[2]), int(w[4])
+            if w[3] == "-":
+                offs = None
+            elif w[3][0] == "m":
+                offs = [j for j, ch in enumerate(w[3][1:]) if ch == "1"]
+            else:
+                offs = sorted(_pints(w[3]))
+            if k < 2 or (offs is not None and (len(offs) != k or len(set(offs)) != k or any(o < 0 for o in offs))):
+                e = ("anyerr",)
+            else:
+                e = ("eq", f"ok {n ** k} {k} {'-' if offs is None else _ints(offs)} {L - k + 1 if offs is None else L - offs[-1]}")
+        elif op == "k_fuse2":
+            n, k = int(w[1]), int(w[2])
+            rows = [[int(x) for x in r.split(".")] for r in w[4].split(";")]
+            if k < 2:
+                e = ("anyerr",)
+            elif all(len(r) == k and all(0 <= c < n for c in r) for r in rows):
+                e = ("eq", "ok " + _ints(sum(c * n ** (k - 1 - j) for j, c in enumerate(r)) for r in rows))
+            else:
+                e = ("err", {"AlphabetError"})
+        elif op == "k_splitv":
+            n, k, cs = int(w[1]), int(w[2]), _pints(w[3])
+            if k < 2:
+                e = ("anyerr",)
+            elif all(0 <= c < n ** k for c in cs):
+                rows = []
+                for c in cs:
+                    ds = []
+                    for _ in range(k):
+                        c, d = divmod(c, n)
+                        ds.append(str(d))
+                    rows.append(".".join(reversed(ds)))
+                e = ("eq", "ok " + ";".join(rows))
+            else:
+                e = ("err", {"AlphabetError"})
         elif op == "k_fuse":
             n, k, codes = int(w[1]), int(w[2]), _pints(w[4])
             if k < 2:
@@ -1834,7 +2158,7 @@ def reference(ops):
             else:
                 e = ("err", {"AlphabetError"})
         elif op == "k_split":
-            n, k, c = int(w[1]), int(w[2]), int(w[3])
+            n, k, c = int(w[1]), int(w[2]), int(w[3].split(":")[0])
             if k < 2:
                 e = ("anyerr",)
             elif 0 <= c < n ** k:
@@ -1882,6 +2206,30 @@ def reference(ops):
                 e = ("eq", "ok " + _toks(reversed(ds)))
             else:
                 e = ("err", {"AlphabetError"})
+        elif op == "c_names":
+            e = ("eq", "ok " + ";".join(n.replace(" ", "~") for n in _file_table_names()))
+        elif op in ("c_dict", "c_codons", "c_eq2"):
+            if table[0] is None or (op == "c_eq2" and table2[0] is None):
+                e = ("eq", "ERR:notable")
+            elif table[0] == "unknown" or (op == "c_eq2" and table2[0] == "unknown"):
+                e = None
+            elif op == "c_dict":
+                e = ("eq", _ref_table_line(*table[0]))
+            elif op == "c_eq2":
+                same = table[0][0] == table2[0][0] and list(table[0][1]) == list(table2[0][1])
+                e = ("eq", "ok " + ("true" if same else "false"))
+            else:
+                e = ("eq", "ok " + _toks(c for c in RADIX_CODONS if table[0][0][c] == w[1])) if w[1] in AA else ("err", {"AlphabetError"})
+        elif op == "c_tr0":
+            d, _ = _file_tables()[1]
+            starts = ["ATG"]
+            dna = ("" if w[3] == "_" else w[3]).upper()
+            if not all(b in "ACGT" for b in dna):
+                e = ("err", {"AlphabetError"})
+            elif w[1] == "1":
+                e = ("err", {"ValueError"}) if len(dna) % 3 else ("eq", "ok " + ("".join(d[dna[i:i + 3]] for i in range(0, len(dna), 3)) or "_"))
+            else:
+                e = ("eq", _ref_orfs(dna, d, starts, w[2] == "1"))
         elif op == "c_tbl":
             aa = "" if w[1] == "_" else w[1]
             starts = [] if w[2] == "_" else w[2].split(",")
@@ -1994,6 +2342,10 @@ def _classify(op, line, got):
         return "C03/Sequence.code/code-outside-dtype-wraps"
     if w[0] == "s_setarr" and got.startswith("ok") and not got.startswith("ok !"):
         return "C03/Sequence.__setitem__/code-outside-dtype-wraps"
+    if got.startswith("CRASH"):
+        return f"C03/{w[0]}/crash"
+    if got.endswith("+MUTATED"):
+        return f"C03/{w[0]}/refused-call-changed-the-object"
     wants_error = bool(line) and line[0] in ("err", "anyerr")
     return f"C03/{w[0]}/" + ("accepted-invalid-input" if got.startswith("ok") and wants_error
                              else "wrong-error" if got.startswith("ERR") and wants_error else "wrong-result")
@@ -2077,7 +2429,7 @@ def search(rng, problems, tier):
         for a in AA:
             yield {"kind": "sequence-prot", "check_ops": [f"s_prot {ord(a)}", "s_str 0", "s_code 0"]}
     for c in cases(rng, "quick"):
-        yield dict({k: v for k, v in c.items() if k != "ops"}, check_ops=c["ops"])
+        yield dict({k: v for k, v in c.items() if k != "ops"}, check_ops=c.get("ops") or c.get("check_ops"))
     if tier == "thorough":
         for c in cases(rng, "quick"):
-            yield dict({k: v for k, v in c.items() if k != "ops"}, check_ops=c["ops"])
+            yield dict({k: v for k, v in c.items() if k != "ops"}, check_ops=c.get("ops") or c.get("check_ops"))
